@@ -207,6 +207,22 @@ def short_window_fact(fact):
     return None
 
 
+def _len_equals_nonzero(fact):
+    """(window field, c) for a controlling fact `len(W) == c` with a constant c != 0"""
+    rel = fact[0]
+    if rel == "IntEq" and isinstance(fact[2], int) and not isinstance(fact[2], bool) and fact[2] != 0:
+        w = len_of_window(fact[1])
+        if w:
+            return w[0], fact[2]
+    if rel == "Eq":
+        for x, y in ((fact[1], fact[2]), (fact[2], fact[1])):
+            w = len_of_window(x)
+            c = peel(y, through_try=False)
+            if w and c is not None and c.k == "const" and isinstance(c.v, int) and not isinstance(c.v, bool) and c.v != 0:
+                return w[0], c.v
+    return None
+
+
 def _const_int(e):
     p = peel(e, through_try=False)
     if p is not None and p.k == "const" and isinstance(p.v, int) and not isinstance(p.v, bool):
@@ -393,6 +409,13 @@ def rule_r3(facts, col, bodies=None):
                 col.silent("C09.R3", key, body.where(bb), "wait target or controlling fact not recognised")
                 continue
             w = short_window_fact(fact)
+            odd = _len_equals_nonzero(fact)
+            if w is None and odd:
+                col.bad("C09.R3", key, body.where(bb),
+                        "the wait on self.%s is decided by `len(window of self.%s) == %d`, which is not a shortage test: with an EMPTY "
+                        "window the block does not wait (it goes on with nothing: zero-length reads taken for end of data, asserts, "
+                        "idle Again) and with exactly %d it stalls" % (tgt, odd[0], odd[1], odd[1]), {})
+                continue
             if w is None:
                 thr = several_windows_short_fact(fact, body, bb)
                 ws = None
